@@ -69,6 +69,7 @@ struct ForRT {
     bool errored = false;       // an error was raised in an op touching it
     unsigned fid = 0;
     std::vector<int> lvl2var;   // model's view of the variable order
+    uint64_t audit_sig = 0;     // cheap signature at the last structure audit
     inline FKind kind() const { return FKind(spec.kind); }
 };
 
@@ -150,11 +151,15 @@ class World {
         std::string cur_family;
         std::ostringstream desc;        // human-readable account of the current step (trace / replay files)
         std::vector<std::string> story; // one line per executed step
+        std::set<uint32_t> astates;     // abstract states seen (coverage measure)
         bool tracing = false;
 
         // options
         bool full_audit = true;         // run I3/I4/I5 after every step
-        int  i1_every = 1;              // check untouched edges every n steps
+        int  i1_every = 4;              // re-evaluate every held edge every n-th step (fresh results,
+                                        // operands and edges about to be released are always checked)
+        int  audit_every = 4;           // structure/count audits of forests whose cheap signature did
+                                        // not change happen every n-th step; changed forests every step
         bool cold_cache = false;        // differential: clear all CTs before each step
         bool verbose = false;
 
